@@ -3626,7 +3626,8 @@ def to_base(lhs, rhs, ctx):
         rhs = list(range(0, int(rhs)))
     else:
         rhs = iterable(rhs, ctx=ctx)
-    if len(rhs) == 1:
+    if len(rhs) == 1 or lhs == 0:
+        # 0 has no logarithm; it is the single digit 0 in every base
         maximal_exponent = lhs
     else:
         maximal_exponent = int(log_mold_multi(lhs, len(rhs), ctx))
